@@ -50,6 +50,9 @@ fn is_ambiguous(s: &str) -> bool {
     if s.is_empty() {
         return true;
     }
+    if starts_with_document_marker(s) {
+        return true;
+    }
     if s == "~"
         || s.eq_ignore_ascii_case("null")
         || s.eq_ignore_ascii_case("true")
@@ -101,6 +104,15 @@ fn is_ambiguous(s: &str) -> bool {
     }
 
     false
+}
+
+/// True for `---` / `...` alone or followed by a blank. Written plain in column 0 (root scalar,
+/// key of the root mapping) this is a document start / end marker, not a scalar.
+fn starts_with_document_marker(s: &str) -> bool {
+    ["---", "..."].iter().any(|marker| {
+        s.strip_prefix(marker)
+            .is_some_and(|rest| rest.is_empty() || rest.starts_with([' ', '\t']))
+    })
 }
 
 /// Like `is_ambiguous`, but used for VALUE position.
